@@ -272,8 +272,32 @@ def compression_flag(ctx, F):
         b = ctx.body(fn)
         if not b:
             continue
-        for s_ in sorted(b.call_sites(*WR)):
-            t = b.term(s_)
+        # the table writes of this planner, also those made by a helper that is handed the bytes and the flag as parameters
+        # (`move_value(tables, from, tier, key, cval, compressed, log)`): the helper's call site stands for the write
+        def write_sites(body, depth=0):
+            out = []
+            for s0 in sorted(body.call_sites(*WR)):
+                out.append((s0, list(body.term(s0)['a'])))
+            if depth < 2:
+                for s0, t0 in body.calls():
+                    if s0 not in body.normal_blocks():
+                        continue
+                    hs = [n for n in call_names(t0) if n in F.bodies and n not in WR and n != body.path and lib.confined_through(F, n, {fn})]
+                    if not hs:
+                        continue
+                    hb = F.bodies[hs[0]]
+                    for hs0, hargs in write_sites(hb, depth + 1):
+                        mapped = []
+                        for a in hargs:
+                            pl = op_place(a)
+                            if pl is not None and len(pl) == 1 and 1 <= pl[0] <= hb.argc and not hb.defs().get(pl[0]) and pl[0] - 1 < len(t0['a']):
+                                mapped.append(t0['a'][pl[0] - 1])
+                            elif pl is None:
+                                mapped.append(a)
+                        out.append((s0, mapped))
+            return out
+        for s_, args_ in write_sites(b):
+            t = {'a': args_}
             flag = [a for a in t['a'] if op_place(a) is not None and str(b.locals[op_place(a)[0]]) == 'bool' and len(op_place(a)) == 1]
             byts = [a for a in t['a'] if op_place(a) is not None and str(b.locals[op_place(a)[0]]) == '&[u8]' and len(op_place(a)) == 1]
             if not flag or not byts:
